@@ -126,6 +126,9 @@ func runC08(c *Ctx) {
 			a1T = gal.App("AOk", logTerm(log))
 		case a1 < 9:
 			R = uint64(rng.Intn(int(minU(F, 1<<20)) + 1))
+			if rng.Intn(2) == 0 { // just below the checkpointed position
+				R = F - minU(F, uint64(rng.Intn(3)))
+			}
 			replies = append(replies, simnode.StreamRollbackTo(R))
 			a1T = gal.App("ARollback", gal.N(R))
 			if rng.Intn(6) == 0 {
